@@ -62,6 +62,15 @@ def pct_or_decimal(v):
         return x
     raise ValueError("range")
 
+def pct_or_decimal_rstrip(v):
+    t = v.strip()
+    if t.endswith("%"):
+        return float(t.rstrip("%")) / 100.0
+    x = float(t.rstrip("%"))
+    if 0 <= x <= 1:
+        return x
+    raise ValueError("range")
+
 def f(p, q, t):
     if t < 0:
         t += 1
@@ -122,6 +131,13 @@ def hex_digits_validated(ret) -> bool:
     for c in raise_guards(ret):
         visit(c, False)
     return bool(ok)
+
+
+def hsl_fields_read_as_css(project, chk, rule="N5"):
+    """The two token readers of hsl(): hue wrapped modulo 360; S / L: a percentage is divided by 100 whatever its size,
+    a bare number is accepted only in [0, 1]. (Also the reader C06's read-back clause relies on.)"""
+    audit(project, chk, rule, f"{CONV}._parse_hue", REF, "hue_of", Policy(), "hue normalisation (any angle wraps into [0, 360))")
+    audit(project, chk, rule, f"{CONV}._parse_hsl_percentage_or_decimal", REF, "pct_or_decimal", Policy(), "S / L percentage scaling", alternatives=["pct_or_decimal_rstrip"])
 
 
 def prefix_strings(org, node, arg):
@@ -429,8 +445,7 @@ def run(project, chk):
               message=f"hex digit alphabet {alpha_sets} rejects one letter case")
 
     # ---------------------------------------------------------------- N5 hsl
-    audit(project, chk, "N5", f"{CONV}._parse_hue", REF, "hue_of", Policy(), "hue normalisation (any angle wraps into [0, 360))")
-    audit(project, chk, "N5", f"{CONV}._parse_hsl_percentage_or_decimal", REF, "pct_or_decimal", Policy(), "S / L percentage scaling")
+    hsl_fields_read_as_css(project, chk, "N5")
     fi = project.func(f"{CONV}.hsl_to_rgb")
     try:
         ex, env, ret = extract_function(project, fi)
